@@ -518,3 +518,13 @@ def build(sess):
                         'absent) and its write trace is compared with the documented template; pause chunking is proved with a '
                         'loop invariant (sum conserved, chunk in 1..750, variant); motors_enable against its documented sequence '
                         'for every board state; layer agreement as equality of template rows.')
+
+
+def fallback(sess):
+    out = []
+    for layer, table in (('ebb3', list(EBB3_TEMPLATES) + ['timed_pause', 'motors_enable']), ('legacy', list(LEG_TEMPLATES) + ['doTimedPause'])):
+        for fn in table:
+            r = native('n_c06', 'search', {'layer': layer, 'fn': fn})
+            r['what'] = f'n_c06.search[{layer}.{fn}]'
+            out.append(r)
+    return out
